@@ -40,7 +40,7 @@ from twisted.logger   import Logger
 # -----------
 
 from ..          import v31, PY2
-from ..error     import MQTTWindowError, QoSValueError, TopicTypeError
+from ..error     import MQTTWindowError, QoSValueError, TopicTypeError, MissingTopicError
 from ..pdu       import SUBSCRIBE, UNSUBSCRIBE, PUBACK, PUBREC, PUBCOMP, PUBLISH, PUBREL
 from .interfaces import IMQTTSubscriber, IMQTTPublisher
 from .interval   import Interval, IntervalLinear
@@ -520,6 +520,8 @@ class MQTTProtocol(MQTTBaseProtocol):
             raise MQTTWindowError("subscription requests exceeded limit", self._window)
         if not isinstance(request.topics, list):
             raise TopicTypeError(type(request.topics))
+        if len(request.topics) == 0:
+            raise MissingTopicError("subscribe")    # a SUBSCRIBE without payload is a protocol violation [MQTT-3.8.3-3]
         for (topic, qos) in request.topics:
             if not ( 0<= qos < 3):
                 raise QoSValueError("subscribe", qos)
@@ -534,6 +536,8 @@ class MQTTProtocol(MQTTBaseProtocol):
             raise MQTTWindowError("unsubscription requests exceeded limit", self._window)
         if not isinstance(request.topics, list):
             raise TopicTypeError(type(request.topics))
+        if len(request.topics) == 0:
+            raise MissingTopicError("unsubscribe")  # an UNSUBSCRIBE without payload is a protocol violation [MQTT-3.10.3-2]
 
     # --------------------------
     # Helper methods (publisher)
